@@ -144,16 +144,7 @@ def rule_R2_unchecked(text):
         old = text[a:cl + 1]
         text = text[:a] + _pad_newlines(old, new) + text[cl + 1:]
         n += 1
-    # unsafe blocks -> plain blocks (unsafe fn stays)
-    m = rsscan.mask(text)
-    res, last, k = [], 0, 0
-    for mt in re.finditer(r'\bunsafe\s*\{', m):
-        res.append(text[last:mt.start()])
-        res.append(' ' * (mt.end() - mt.start() - 1) + '{')
-        last = mt.end()
-        k += 1
-    res.append(text[last:])
-    return ''.join(res), n + k
+    return text, n
 
 
 def rule_R34_asserts(text):
@@ -201,6 +192,103 @@ def rule_R6_minmax(text):
     return text, a + b
 
 
+
+_UNSAFE_IN_SHAPE_BODY = re.compile(r'\[|\bunwrap\b|\bexpect\s*\(|\bassert|\bpanic\b|\breturn\b|\bbreak\b|\?')
+
+
+def rule_R8_R11_shape(text):
+    """R8/R11 (shape units only): element-wise zip loops and table-fill loops become calls of assumed, length-preserving
+    primitives; `vec![Complex::zero(); n]` becomes verif_new_table(n).  Declared drop: element values."""
+    n = 0
+    while True:
+        m = rsscan.mask(text)
+        hit = None
+        for mt in re.finditer(r'\bfor\s*\(\s*(&?\w+)\s*,\s*(&?\w+)\s*\)\s+in\s+', m):
+            if not rsscan.is_stmt_start(m, mt.start(), 0):
+                continue
+            bo = rsscan.find_body_open(m, mt.end())
+            if bo < 0:
+                continue
+            hdr = ' '.join(text[mt.end():bo].split())
+            bc = rsscan.match_close(m, bo)
+            body = m[bo + 1:bc]
+            new = None
+            z = re.fullmatch(r'(.+?)\.iter_mut\(\)\.zip\((.+?)\.iter\(\)\)', hdr)
+            nbody = ' '.join(text[bo + 1:bc].split())
+            a_, b_ = mt.group(1), mt.group(2)
+            if z and b_.startswith('&'):
+                g = re.fullmatch(r'\*%s = (\w+)\[%s\];' % (re.escape(a_), re.escape(b_[1:])), nbody)
+                if not g:
+                    raise Inconclusive('R8 gather: unexpected loop body %r' % nbody)
+                new = 'verif_gather(%s, %s, %s);' % (z.group(1), g.group(1), z.group(2))
+                hit = (mt.start(), bc + 1, new)
+                break
+            if z:
+                new = 'verif_elementwise(%s, &%s);' % (z.group(1), z.group(2))
+            z = re.fullmatch(r'(.+?)\.iter\(\)\.zip\((.+?)\.iter\(\)\)', hdr)
+            if z and new is None and b_.startswith('&'):
+                g = re.fullmatch(r'(\w+)\[%s\] = \*%s;' % (re.escape(b_[1:]), re.escape(a_)), nbody)
+                if not g:
+                    raise Inconclusive('R8 scatter: unexpected loop body %r' % nbody)
+                new = 'verif_scatter(%s, %s, %s);' % (g.group(1), z.group(1), z.group(2))
+                hit = (mt.start(), bc + 1, new)
+                break
+            z = re.fullmatch(r'(.+?)\.chunks_exact_mut\((.+?)\)\.enumerate\(\)', hdr)
+            if z and new is None:
+                new = 'verif_fill_chunks(&mut %s, %s);' % (z.group(1), z.group(2))
+            z = re.fullmatch(r'(.+?)\.iter_mut\(\)\.enumerate\(\)', hdr)
+            if z and new is None:
+                new = 'verif_fill(&mut %s);' % z.group(1)
+            if new is None:
+                continue
+            # nested fill loops are part of the same abstraction; the innermost bodies must be index/panic free
+            inner = body
+            if _UNSAFE_IN_SHAPE_BODY.search(re.sub(r'\bfor\s*\([^)]*\)\s+in\s+[^{]*\{', ' ', inner)):
+                raise Inconclusive('R8/R11: loop body is not a pure element-wise update: %r' % hdr)
+            hit = (mt.start(), bc + 1, new)
+            break
+        if not hit:
+            break
+        a, b, new = hit
+        text = text[:a] + _pad_newlines(text[a:b], new) + text[b:]
+        n += 1
+    text, k = re.subn(r'vec!\[\s*Complex::zero\(\)\s*;\s*([^\]]+?)\s*\]', r'verif_new_table(\1)', text)
+    return text, n + k
+
+
+def annotate_closure(text, k, params, spec):
+    """R1 (closures): give the k-th closure literal typed parameters and a requires/ensures clause."""
+    m = rsscan.mask(text)
+    hits = [mt for mt in re.finditer(r'(?<=[,(=])(\s*)(move\s+)?\|([^|]*)\|', m)]
+    if len(hits) < k:
+        raise Inconclusive('closure #%d not found' % k)
+    mt = hits[k - 1]
+    a = mt.start() + len(mt.group(1))
+    pe = mt.end()
+    # body: block or expression
+    j = pe
+    while m[j] in ' \t\r\n':
+        j += 1
+    flat = ' '.join(spec.split())
+    head = '%s|%s| %s ' % (mt.group(2) or '', params, flat)
+    if m[j] == '{':
+        return text[:a] + head + text[j:]
+    # expression body: ends at top-level ',' or closing bracket
+    depth, q = 0, j
+    while q < len(m):
+        c = m[q]
+        if c in '([{':
+            depth += 1
+        elif c in ')]}':
+            if depth == 0:
+                break
+            depth -= 1
+        elif c == ',' and depth == 0:
+            break
+        q += 1
+    return text[:a] + head + '{ ' + text[j:q].rstrip() + ' }' + text[q:]
+
+
 RULES = [('R5', rule_R5_strip), ('R2', rule_R2_unchecked), ('R34', rule_R34_asserts), ('R6', rule_R6_minmax)]
 
 
@@ -225,6 +313,8 @@ class FnEdit:
         self.subs = []       # (regex, repl)
         self.external = False
         self.opts = {}
+        self.closures = {}
+        self.shape = False
 
 
 class Generator:
@@ -267,8 +357,10 @@ class Generator:
         with open(path) as f:
             return f.read().split('\n')
 
-    def _process_template(self, path):
+    def _process_template(self, path, subst=None):
         lines = self._read_template(path)
+        if subst:
+            lines = [re.sub(r'\$(\w+)', lambda mm: subst.get(mm.group(1), mm.group(0)), ln) for ln in lines]
         rel = os.path.relpath(path, os.path.dirname(VX_DIR))
         i = 0
         cond_stack = []  # booleans: active?
@@ -308,10 +400,12 @@ class Generator:
                 self.meta['props'] = tok[1:]
             elif cmd == 'tier':
                 self.meta['tier'] = tok[1]
+            elif cmd == 'clauseprops':
+                self.meta['clauseprops'] = tok[1:]
             elif cmd == 'assume':
                 self.log.append({'assumption': d[len('assume'):].strip()})
             elif cmd == 'include':
-                self._process_template(os.path.join(VX_DIR, tok[1]))
+                self._process_template(os.path.join(VX_DIR, tok[1]), self._kv(tok[2:]))
             elif cmd == 'item':
                 self._do_item(tok[1], tok[2], tok[3], tok[4:], rel, i + 1)
             elif cmd in ('fn', 'macrofn'):
@@ -372,6 +466,8 @@ class Generator:
                 e.start = (text, l0)
             elif kind in ('before', 'after'):
                 e.anchors.append((kind, int(args[0]), ' '.join(args[1:]), text, l0))
+            elif kind == 'closure':
+                e.closures[int(args[0])] = (args[1].strip().strip('|'), text, l0)
             cur = None
 
         for lno, ln in block:
@@ -387,10 +483,15 @@ class Generator:
                     e.ret = tok[1]
                 elif c == 'external':
                     kvx = self._kv(tok[1:])
-                    if 'ifdef' in kvx:
-                        e.external = kvx['ifdef'] in self.defines
+                    if 'ifdef' in kvx or 'ifmode' in kvx:
+                        e.external = (kvx.get('ifdef') in self.defines) or (kvx.get('ifmode') == self.mode)
                     else:
                         e.external = True
+                elif c == 'shape':
+                    e.shape = True
+                elif c == 'closure':
+                    # //@ closure K |typed params|   followed by spec lines
+                    cur = ('closure', [tok[1], d.split(None, 2)[2]], [], lno + 1)
                 elif c == 'sub':
                     rg, rp = d[3:].split('=>', 1)
                     e.subs.append((rg.strip(), rp.strip()))
@@ -550,6 +651,16 @@ class Generator:
                 raise Inconclusive('%s: local rewrite %r did not match' % (path, rg))
             self._count('local-sub', k)
             self.log.append({'rule': 'local-sub', 'fn': path, 'regex': rg, 'repl': rp, 'count': k})
+        if edit.shape:
+            text, k = rule_R8_R11_shape(text)
+            if k:
+                self._count('R8/R11', k)
+                self.log.append({'rule': 'R8/R11', 'fn': path, 'count': k})
+        for k in sorted(edit.closures):
+            params, cspec, cl = edit.closures[k]
+            text = annotate_closure(text, k, params, cspec)
+            self._count('R1-closure')
+            self.clauses += len(re.findall(r'\b(requires|ensures)\b', cspec))
         m = rsscan.mask(text)
         fnkw = re.search(r'\bfn\b', m).start()
         bo = rsscan.find_body_open(m, fnkw)
@@ -740,7 +851,7 @@ def generate(unit, mode, repo=REPO):
 def unit_meta(unit):
     """cheap header parse: modes/props/tier without touching /repo"""
     path = os.path.join(VX_DIR, 'units', unit + '.vx')
-    meta = {'unit': unit, 'modes': ['S'], 'props': [], 'tier': 'quick'}
+    meta = {'unit': unit, 'modes': ['S'], 'props': [], 'tier': 'quick', 'clauseprops': []}
     for ln in open(path):
         s = ln.strip()
         if s.startswith('//@ modes'):
@@ -749,6 +860,8 @@ def unit_meta(unit):
             meta['props'] = s.split()[2:]
         elif s.startswith('//@ tier'):
             meta['tier'] = s.split()[2]
+        elif s.startswith('//@ clauseprops'):
+            meta['clauseprops'] = s.split()[2:]
     return meta
 
 
